@@ -263,7 +263,7 @@ class Complementary:
                 ez = np.arctan2(-by, bx)
             return np.array([ex, ey, ez])
         # Estimation for 2-dimensional arrays
-        angles = np.zeros_like(acc)   # Allocation of angles array
+        angles = np.zeros(acc.shape)    # Allocation of angles array (of floats, also for integer samples)
         # Estimate tilt angles
         a_norm = np.linalg.norm(acc, axis=1)[:, None]
         if np.where(a_norm == 0)[0].size > 0:
